@@ -101,6 +101,18 @@ type faultWS struct{ *faultW }
 
 func (f faultWS) WriteString(s string) (int, error) { return f.faultW.Write([]byte(s)) }
 
+// the same destination with the method set of an in-memory buffer (Write, WriteString, WriteByte, WriteRune): a
+// caller may well pass such a size-capped buffer, and an implementation that special-cases "buffer-like" writers
+// must still surface its errors
+type faultBuf struct{ *faultW }
+
+func (f faultBuf) WriteString(s string) (int, error) { return f.faultW.Write([]byte(s)) }
+func (f faultBuf) WriteByte(c byte) error {
+	_, err := f.faultW.Write([]byte{c})
+	return err
+}
+func (f faultBuf) WriteRune(r rune) (int, error) { return f.faultW.Write([]byte(string(r))) }
+
 func newFault(mode string, k int, sw bool) (*faultW, io.Writer) {
 	f := &faultW{mode: mode, room: k}
 	if sw {
@@ -513,6 +525,31 @@ func implBufio(c Case) ImplResult {
 		}
 		if f.failed && len(f.acc) > 0 {
 			hit = true
+		}
+		// the same fault through a buffer-like destination (oracle only; the model's destination has Write/WriteString)
+		if dest == "wrap" && nodeErr == "-" {
+			fb := &faultW{mode: mode, room: k}
+			var errB error
+			func() {
+				defer func() {
+					if p := recover(); p != nil {
+						fail("panic", fmt.Sprintf("buffer-like destination mode=%s k=%d: panic %v", mode, k, p))
+						errB = fmt.Errorf("panic")
+					}
+				}()
+				errB = bufioMarkdown(cfg).Convert(src, faultBuf{fb})
+			}()
+			if !bytes.HasPrefix(full, fb.acc) {
+				fail("accepted-not-prefix", fmt.Sprintf("%s (buffer-like destination): accepted bytes are not a prefix of the fault-free output", where))
+			}
+			if fb.failed && errB == nil {
+				fail("error-swallowed", where+" (buffer-like destination with WriteByte/WriteString/WriteRune): the writer returned an error but Convert returned nil")
+			} else if fb.failed && !errors.Is(errB, bufioErrInjected) {
+				fail("error-replaced", fmt.Sprintf("%s (buffer-like destination): Convert returned %q", where, errB))
+			}
+			if !fb.failed && (errB != nil || !bytes.Equal(full, fb.acc)) {
+				fail("incomplete-output", fmt.Sprintf("%s (buffer-like destination): no fault but err=%v, %d of %d bytes", where, errB, len(fb.acc), len(full)))
+			}
 		}
 		if seqdiff {
 			outs = append(outs, "seqdiff")
